@@ -3,20 +3,18 @@ import PPLV.Watchdog.ProofsLag3
 /-! `LagInv` under `create`, `destroy`, `tick` (with the handler); the induction over schedules. -/
 namespace PPLV.Watchdog
 
-theorem lag_create {σ : St} (h : LagInv σ) (id : Nat) (cs : Int) :
-    (create σ id cs).badArg = true ∨ LagInv (create σ id cs) := by
+theorem lag_create {σ : St} (h : LagInv σ) (id : Nat) (cs : Int) : LagInv (create σ id cs) := by
   by_cases hg : σ.pc ≠ .idle ∨ id ∈ σ.used
   · have : create σ id cs = σ := by unfold create; simp [hg]
-    rw [this]; exact Or.inr h
+    rw [this]; exact h
   · have hpc : σ.pc = .idle := by
       by_cases hh : σ.pc = .idle
       · exact hh
       · exact absurd (Or.inl hh) hg
     have hp := (pcInv_of hpc).mp h.pcInv
     simp only [PcInvAt] at hp
-    by_cases h0 : cs = 0
-    · right
-      have heq : create σ id cs = { σ with used := id :: σ.used, log := .rejected id cs :: σ.log } := by
+    by_cases h0 : cs ≤ 0
+    · have heq : create σ id cs = { σ with used := id :: σ.used, log := .rejected id cs :: σ.log } := by
         unfold create; simp [hg, h0]
       rw [heq]
       refine ⟨⟨h.base.noErr, h.base.normT, h.base.normL, h.base.normP, h.base.sorted, h.base.remNonneg,
@@ -26,32 +24,28 @@ theorem lag_create {σ : St} (h : LagInv σ) (id : Nat) (cs : Int) :
       rcases hp.2 with ha | hs
       · exact ⟨hp.1, Or.inl ha⟩
       · exact ⟨hp.1, Or.inr hs⟩
-    · by_cases hneg : cs < 0
-      · left; unfold create; simp [hg, h0, hneg]
-      · right
-        have hcs : 0 < cs := by omega
-        have heq : create σ id cs = { σ with
-            used := id :: σ.used
-            inCrit := true
-            badArg := σ.badArg || decide (cs < 0)
-            log := .born id σ.now cs :: σ.log
-            pc := if σ.running then .b1 id cs σ.now (Time.ofCs cs) else .a1 id cs σ.now (Time.ofCs cs) } := by
-          unfold create; simp [hg, h0]
-        rw [heq]
-        refine ⟨⟨h.base.noErr, h.base.normT, h.base.normL, h.base.normP, h.base.sorted, h.base.remNonneg,
-          base_fired_cons (by intros; simp) h.base.fired⟩, ?_⟩
-        rcases Bool.eq_false_or_eq_true σ.running with hr | hr
-        rotate_left
-        · refine (pcInv_of (pc := .a1 id cs σ.now (Time.ofCs cs)) (by simp [hr])).mpr ?_
-          simp only [PcInvAt]
-          rcases hp.2 with ha | hs
-          · have := ha.1; rw [hr] at this; exact absurd this (by simp)
-          · exact ⟨trivial, hs, trivial, hcs, Int.le_refl _⟩
-        · refine (pcInv_of (pc := .b1 id cs σ.now (Time.ofCs cs)) (by simp [hr])).mpr ?_
-          simp only [PcInvAt]
-          rcases hp.2 with ha | hs
-          · exact ⟨trivial, ha, trivial, hcs, Int.le_refl _⟩
-          · have := hs.1; rw [hr] at this; exact absurd this (by simp)
+    · have hcs : 0 < cs := by omega
+      have heq : create σ id cs = { σ with
+          used := id :: σ.used
+          inCrit := true
+          log := .born id σ.now cs :: σ.log
+          pc := if σ.running then .b1 id cs σ.now (Time.ofCs cs) else .a1 id cs σ.now (Time.ofCs cs) } := by
+        unfold create; simp [hg, h0]
+      rw [heq]
+      refine ⟨⟨h.base.noErr, h.base.normT, h.base.normL, h.base.normP, h.base.sorted, h.base.remNonneg,
+        base_fired_cons (by intros; simp) h.base.fired⟩, ?_⟩
+      rcases Bool.eq_false_or_eq_true σ.running with hr | hr
+      rotate_left
+      · refine (pcInv_of (pc := .a1 id cs σ.now (Time.ofCs cs)) (by simp [hr])).mpr ?_
+        simp only [PcInvAt]
+        rcases hp.2 with ha | hs
+        · have := ha.1; rw [hr] at this; exact absurd this (by simp)
+        · exact ⟨trivial, hs, trivial, hcs, Int.le_refl _⟩
+      · refine (pcInv_of (pc := .b1 id cs σ.now (Time.ofCs cs)) (by simp [hr])).mpr ?_
+        simp only [PcInvAt]
+        rcases hp.2 with ha | hs
+        · exact ⟨trivial, ha, trivial, hcs, Int.le_refl _⟩
+        · have := hs.1; rw [hr] at this; exact absurd this (by simp)
 
 theorem lag_destroy {σ : St} (h : LagInv σ) (id : Nat) : LagInv (destroy σ id) := by
   unfold destroy
@@ -181,8 +175,8 @@ theorem handler_deferred_log (b : Bool) (σ : St) (hc : σ.inCrit = true) :
   · exact ⟨σ.now, by simp⟩
   · split <;> exact ⟨σ.now, by simp⟩
 
-/-- the invariant of runs without negative delays, as long as no signal has been deferred -/
-def NInv (σ : St) : Prop := (∃ t, Event.deferred t ∈ σ.log) ∨ σ.badArg = true ∨ LagInv σ
+/-- the invariant of all runs, as long as no signal has been deferred -/
+def NInv (σ : St) : Prop := (∃ t, Event.deferred t ∈ σ.log) ∨ LagInv σ
 
 theorem lag_tick {σ : St} (h : LagInv σ) (dt : Int) :
     (∃ t, Event.deferred t ∈ (tick false σ dt).log) ∨ LagInv (tick false σ dt) := by
@@ -256,22 +250,15 @@ theorem exec_log_suffix (b : Bool) (σ : St) (s : Step) : ∃ es, (exec b σ s).
         · exact hh _
 
 theorem ninv_exec {σ : St} (h : NInv σ) (s : Step) : NInv (exec false σ s) := by
-  rcases h with ⟨t, ht⟩ | hb | hl
+  rcases h with ⟨t, ht⟩ | hl
   · left
     obtain ⟨es, hes⟩ := exec_log_suffix false σ s
     exact ⟨t, by rw [hes]; exact List.mem_append_right _ ht⟩
-  · exact Or.inr (Or.inl ((exec_flags false σ s).2 hb))
   · cases s with
-    | create id cs =>
-      rcases lag_create hl id cs with h1 | h1
-      · exact Or.inr (Or.inl h1)
-      · exact Or.inr (Or.inr h1)
-    | destroy id => exact Or.inr (Or.inr (lag_destroy hl id))
-    | step => exact Or.inr (Or.inr (lag_step hl))
-    | tick d =>
-      rcases lag_tick hl d with h1 | h1
-      · exact Or.inl h1
-      · exact Or.inr (Or.inr h1)
+    | create id cs => exact Or.inr (lag_create hl id cs)
+    | destroy id => exact Or.inr (lag_destroy hl id)
+    | step => exact Or.inr (lag_step hl)
+    | tick d => exact lag_tick hl d
 
 theorem ninv_run (sched : List Step) : NInv (run false sched) := by
   have : ∀ (l : List Step) (σ : St), NInv σ → NInv (runFrom false σ l) := by
@@ -279,6 +266,6 @@ theorem ninv_run (sched : List Step) : NInv (run false sched) := by
     induction l with
     | nil => intro σ h; exact h
     | cons s l ih => intro σ h; exact ih _ (ninv_exec h s)
-  exact this sched {} (Or.inr (Or.inr lag_init))
+  exact this sched {} (Or.inr lag_init)
 
 end PPLV.Watchdog
